@@ -148,7 +148,7 @@ Lemma parse_block_shape o rt hs content fnd hs' blk bd pd fnd' bd0 pd0 :
   | _ => True
   end /\
   ((hs' = hs /\ raw_bytes blk = content) \/
-   (hs' = m_set n_content_length (itoa (cl_value hs + 2)) hs /\ length (raw_bytes blk) = (length content + 2)%nat)).
+   (hs' = m_set n_content_length (itoa (wrap64 (cl_value hs + 2))) hs /\ length (raw_bytes blk) = (length content + 2)%nat)).
 Proof.
   intros Hfix E1 E2. unfold Record.parse_block. rewrite E1, E2, Hfix. unfold site.
   destruct (http_header content) as [hb found] eqn:Eh.
@@ -274,7 +274,8 @@ Proof.
     - rewrite Hraw. split; [exact Hcl2|exact Hseg2].
     - split; [|rewrite has_set_other; auto].
       rewrite get_set_same. unfold Record.cl_value. rewrite Hhas2, Hcl2.
-      rewrite atoi_value_itoa by lia. rewrite Hraw. f_equal. lia. }
+      rewrite atoi_value_itoa by lia. rewrite Hraw. f_equal.
+      unfold wrap64, int64_max in *. rewrite Z.mod_small by lia. lia. }
   destruct Hcl4 as [Hcl4 Hseg4].
   destruct (validate_digest o rt0 hs4 blk bd pd true fnd1) as [hs5 fnd2|e fnd2] eqn:Evd; [|intros HH; discriminate].
   intros HH. inversion HH; subst r fnd hs_out. cbn [r_fields r_block].
